@@ -246,6 +246,21 @@ def t_threaded_world():
     c = w2.spawn("spin", spin)
     w2.run()
     ok(w2.aborted and c.exc is None, "horizon aborts spinning context")
+    # a single wait that crosses the horizon ends that context on its own: the baton must go back to
+    # the main thread (which then aborts the context blocked for ever) - this used to dead-lock
+    w3 = World(horizon_ns=5 * MS).activate()
+    r3 = SimRadio(w3, "r3")
+
+    def oversleep(ctx):
+        ctx.wait(1 * MS)
+        ctx.wait(10 * MS)
+
+    def blocked(ctx):
+        ctx.wait_rx(r3, None, 0)
+    c1 = w3.spawn("oversleep", oversleep)
+    c2 = w3.spawn("blocked", blocked)
+    w3.run()
+    ok(w3.aborted and c1.done and c2.done, "a context that runs into the horizon by itself does not strand the others")
 
 
 def main():
